@@ -191,4 +191,20 @@ theorem gen_auth_pinned :
     Gen.serverConnectToken = ["o.AuthToken"] := by
   decide
 
+/-- non-vacuity: a reachable store with a user `u1` under the root device and a user `u2` (same credentials scheme) under
+    a group whose edge to the root device is deleted: the first can log in, the second cannot -/
+example :
+    let isDel : Nat → Bool := fun v => v == 4607182418800017408
+    let nt : Bytes → Int → Point := fun ty t => { type := nodeTypeT, text := ty, time := t }
+    let st := run {} [
+      .ep [82] [] [{ type := tombstoneT, time := 1 }, nt [100] 1],
+      .ep [103] [82] [{ type := tombstoneT, time := 2, value := 4607182418800017408 }, nt [100] 2],
+      .ep [117, 49] [82] [{ type := tombstoneT, time := 3 }, nt userT 3],
+      .ep [117, 50] [103] [{ type := tombstoneT, time := 4 }, nt userT 4],
+      .np [117, 49] [{ type := emailT, text := [97], time := 5 }, { type := passT, text := [120], time := 5 }],
+      .np [117, 50] [{ type := emailT, text := [98], time := 6 }, { type := passT, text := [121], time := 6 }]]
+    Inv st ∧ userCheck isDel st [97] [120] ≠ [] ∧ userCheck isDel st [98] [121] = [] ∧ userCheck isDel st [97] [121] = [] := by
+  intro isDel nt st
+  exact ⟨c03_reachable _, by decide +kernel, by decide +kernel, by decide +kernel⟩
+
 end Siot.Auth
